@@ -498,7 +498,9 @@ func TestVerif(t *testing.T) {
 	defer ctx.Finish()
 	secrets := []string{"s3cr3t", "", "%s%d%v", "[REDACTED]", "RED", "pässwörd", strings.Repeat("k", 1024), "a\nb\"c",
 		// texts that YAML does not read as strings: a secret is whatever the user's secret is
-		"#S3cr3t!", "~", "null", "12345", "true", "0x1F", "1e3", "2021-01-01", "[a, b]", "a: b"}
+		"#S3cr3t!", "~", "null", "12345", "true", "0x1F", "1e3", "2021-01-01", "[a, b]", "a: b",
+		// characters that mean something to the configuration machinery itself (expansion syntax, key separators)
+		"pa$$w0rd", "$ecret", "tok${env:HOME}en", "a::b", "${", "$"}
 	quick := ctx.Quick()
 	base := c14Renderings("BASELINE-other-secret", quick)
 	check := func(sec, onlyPath string) {
